@@ -160,6 +160,12 @@ def run_shard(sh, rec):
             ex = [0, 2, 4]
             rng.shuffle(ex)
             shape = tuple(lo + e for e in ex)
+        if c["cid"] % 4 == 2:
+            # one long axis (> 32 cells): seams of slab-/block-wise processing lie along ONE axis and move with the relabelling
+            ls = list(shape)
+            ls[int(rng.integers(d))] = 34 + 2 * int(rng.integers(0, 4))
+            shape = tuple(ls)
+            rec.count("pairs_with_one_long_axis")
         dx = 1.0 / 32
         nu = float(10 ** rng.uniform(-3, -1))
         dt = float(10 ** rng.uniform(-4, -2))
